@@ -5,8 +5,9 @@ CONSTANTS
   Unary = {"Quote", "Optional", "Union1", "list", "List", "TList", "Sequence", "type", "Type", "tupleEll", "TupleEll", "tuple1", "Tuple1", "Annotated1", "CallableEll", "Callable0", "CallableToNone", "AbcCallable", "dictStr", "StarTail", "StarOnly", "UnpackTail"}
   Binary = {"Or", "Union2", "tuple2", "Tuple2", "dict2", "Dict2", "Callable1"}
   TopOnly = {"Final", "ClassVar"}
-  MaxNodes = 4
+  MaxNodes = 3
   MaxStack = 3
   BugOptionalDropsNone = FALSE
-INVARIANT EmitDone
+INVARIANT AnnotationRoutesAgree
+INVARIANT NoRouteRaises
 CHECK_DEADLOCK FALSE
